@@ -681,6 +681,8 @@ LINUX_SIGNAMES = {1: "HUP", 2: "INT", 3: "QUIT", 4: "ILL", 5: "TRAP", 6: "ABRT",
                   14: "ALRM", 15: "TERM", 16: "STKFLT", 17: "CHLD", 18: "CONT", 19: "STOP", 20: "TSTP", 21: "TTIN", 22: "TTOU", 23: "URG", 24: "XCPU", 25: "XFSZ",
                   26: "VTALRM", 27: "PROF", 28: "WINCH", 29: "IO", 30: "PWR", 31: "SYS"}
 
+STATUS_WORD = {"P": "PASS", "L": "LEAK", "F": "FAIL", "Fl": "FAIL + LEAK", "X": "XFAIL", "T": "TIMEOUT"}
+
 
 def mon_results(sc, r):
     """C03: per-attempt result vs what the process did; flaky iff passed after failures"""
@@ -709,6 +711,13 @@ def mon_results(sc, r):
                 ok = {f"SIG{LINUX_SIGNAMES[n]}" for n in signums if n in LINUX_SIGNAMES} | {f"ABORT SIG {n}" for n in signums} | {f"SIG {n}" for n in signums}
                 if mm.group(1) not in ok:
                     out.append(viol(sc, r, "result", f"test {t['name']!r} was ended by signal {sorted(signums)} and its status line says {mm.group(1)!r} (expected one of {sorted(ok)}): a failure is reported with the signal that ended the test"))
+        # … and every other outcome under its own word (tests with a single attempt: the line shows that attempt's result)
+        if len(gotn) == 1 and gotn == want and gotn[0] in STATUS_WORD:
+            for line in r.stderr.split("\n"):
+                mm = re.match(r"\s+(PASS|LEAK|FAIL \+ LEAK|FAIL|XFAIL|TIMEOUT|FLAKY \S+|SIG[A-Z0-9]+|ABORT SIG \d+)\s+\[[^\]]*\]\s+(.*)$", line)
+                if not mm or mm.group(2).rstrip("\r") != f"{binary_id(t)} {t['name']}": continue
+                if mm.group(1) != STATUS_WORD[gotn[0]]:
+                    out.append(viol(sc, r, "result", f"test {t['name']!r}: its only attempt ended {gotn[0]} and its status line says {mm.group(1)!r} (expected {STATUS_WORD[gotn[0]]!r}): each outcome is reported as what it is"))
         for s, a in zip(sts, exp):
             slow = s.split(":")[2] == "slow"
             if a.get("slow") and not slow and a["expect"] != "T": out.append(viol(sc, r, "slow-flag", f"test {t['name']!r}: ran {SLOW_PERIOD + 250}ms with period {SLOW_PERIOD}ms but is not marked slow"))
